@@ -104,7 +104,7 @@ func (x *anteExec) leafCoq(kind string) string {
 	case "s0":
 		return fmt.Sprintf("LSettle (MCreateTenant %s %s 7)", a, cStr("utwo"))
 	case "s1":
-		return fmt.Sprintf("LSettle (MCreateTenantMC %s %s 7)", a, cStr("utwo"))
+		return fmt.Sprintf("LSettle (MCreateTenantMC %s %s 7 [] 4)", a, cStr("utwo"))
 	case "s2":
 		return fmt.Sprintf("LSettle (MAddAdmin %s 1 %s)", a, x.e.acctZ(roleStranger))
 	case "s3":
